@@ -128,7 +128,13 @@ def hyperbolic_artists(tier, rng, rep):
                             if model == "halfspace" and (np.max(np.abs(vm)) > 50):
                                 return "skip"
                             scale = 1 + np.max(np.abs(vm))
-                            if np.linalg.norm(pts[0] - pts[-1]) > 1e-3 * scale:
+                            # half-plane: an edge whose circle exceeds the radius threshold is deliberately drawn as the vertical segment at
+                            # one endpoint's abscissa; when that is the closing edge the path ends at the start vertex's height but at the
+                            # other abscissa (within the documented straight-segment approximation)
+                            gap_ok = 1e-3 * scale
+                            if model == "halfspace" and not (_edge_radius(model, vm[-1], vm[0]) < drawtools.RADIUS_THRESHOLD):
+                                gap_ok += abs(vm[-1][0] - vm[0][0])
+                            if not (np.linalg.norm(pts[0] - pts[-1]) <= gap_ok):
                                 rep.fail("path_is_closed", f"{pts[0]} vs {pts[-1]}", inp); return
                             # visits the vertices in order (cyclically, either orientation)
                             idx = [int(np.argmin(np.linalg.norm(pts - v_, axis=1))) for v_ in vm]
